@@ -3,14 +3,22 @@
  * (EXT2FS_BMAP64_BITARRAY, EXT2FS_BMAP64_RBTREE, legacy 32-bit gen_bitmap.c)
  * using the public generic API only, and prints one ndjson line per operation:
  * the API-visible result on each back end, the full bit vector of each back end
- * (test on every position start..end) and the rbtree's extents + cursors (hook H2).
+ * (test on every position start..end, logged run-length encoded as [first, length] pairs relative to start)
+ * and the rbtree's extents + cursors (hook H2).
  *
  * Input (stdin), one operation per line, positions are ABSOLUTE block numbers as a caller passes them:
- *   reset <start> <end> <real_end> <cluster_bits>     start a new behaviour on fresh bitmaps
+ *   reset <start> <end> <real_end> <cluster_bits> [<logoff> [<cut points ...>]]
+ *                    start a new behaviour on fresh bitmaps.  logoff (bitmap units, default 0) is subtracted from
+ *                    every logged absolute position (TLC integers are 32 bit; a bitmap that starts near 2^32 is
+ *                    logged as if it started near 0).  The cut points (relative to start, increasing) are the
+ *                    interval abstraction's table (DESIGN 2.3): they are only copied into the reset line for the
+ *                    trace specification, the driver itself never looks at them.
+ *                    The legacy back end exists when cluster_bits = 0 and real_end fits in 32 bits.
  *   mark b | unmark b | test b
  *   mark_range b n | unmark_range b n | test_range b n
  *   ffz a b | ffs a b
  *   get_range s n | set_range s n <bits as 0/1 string>     (s, n in bitmap units, as rw_bitmaps.c passes them)
+ *   set_runs s n <off> <len> <off> <len> ...              set_range whose input bits are given as runs of ones
  *   clear | copy | set_padding | resize <new_end> <new_real_end>
  *   cmp b            compare the bitmap with a copy in which bit b (bitmap units) was flipped; cmp -1: unmodified copy;
  *                    cmp -2: copy with set_padding applied (same set, different padding)
@@ -28,8 +36,9 @@ extern int ext2fs_verif_rb_dump(ext2fs_generic_bitmap gen_bmap, char *buf, size_
 static ext2fs_generic_bitmap bm[NB];	/* 0 = bitarray, 1 = rbtree, 2 = legacy 32-bit (absent with clusters) */
 static struct struct_ext2_filsys fake_fs;
 static struct ext2_super_block fake_sb;
-static unsigned long long b_start, b_end, b_rend;
+static unsigned long long b_start, b_end, b_rend, logoff;
 static int cbits;
+#define BUFBYTES (1 << 16)
 
 static void free_all(void)
 {
@@ -41,7 +50,7 @@ static void free_all(void)
 		}
 }
 
-static void do_reset(unsigned long long s, unsigned long long e, unsigned long long re, int cb)
+static void do_reset(unsigned long long s, unsigned long long e, unsigned long long re, int cb, unsigned long long maxpos)
 {
 	errcode_t r;
 	free_all();
@@ -55,7 +64,7 @@ static void do_reset(unsigned long long s, unsigned long long e, unsigned long l
 	if (r) { fprintf(stderr, "alloc ba %ld\n", (long) r); exit(3); }
 	r = ext2fs_alloc_generic_bmap(&fake_fs, EXT2_ET_MAGIC_BLOCK_BITMAP64, EXT2FS_BMAP64_RBTREE, s, e, re, "rb", &bm[1]);
 	if (r) { fprintf(stderr, "alloc rb %ld\n", (long) r); exit(3); }
-	if (cb == 0) {
+	if (cb == 0 && re <= 0xffffffffULL && maxpos <= 0xffffffffULL) {
 		r = ext2fs_make_generic_bitmap(EXT2_ET_MAGIC_BLOCK_BITMAP, &fake_fs, s, e, re, "legacy", NULL, &bm[2]);
 		if (r) { fprintf(stderr, "alloc 32 %ld\n", (long) r); exit(3); }
 	}
@@ -64,19 +73,26 @@ static void do_reset(unsigned long long s, unsigned long long e, unsigned long l
 static void print_bits(void)
 {
 	int i, first;
-	unsigned long long p, s0;
-	printf(",\"has32\":%d,\"bits\":[", bm[2] ? 1 : 0);
+	unsigned long long p, s0, e0, run0 = 0;
+	int inrun;
+	printf(",\"has32\":%d,\"runs\":[", bm[2] ? 1 : 0);
 	for (i = 0; i < NB; i++) {
 		if (i) printf(",");
 		printf("[");
 		if (bm[i] && i != 1) {
-			first = 1;
+			first = 1; inrun = 0;
 			s0 = ext2fs_get_generic_bmap_start(bm[i]);
-			for (p = s0; p <= ext2fs_get_generic_bmap_end(bm[i]); p++)
-				if (ext2fs_test_generic_bmap(bm[i], p << cbits)) {
-					printf("%s%llu", first ? "" : ",", p - s0);
-					first = 0;
+			e0 = ext2fs_get_generic_bmap_end(bm[i]);
+			for (p = s0; p <= e0; p++) {
+				int t = !!ext2fs_test_generic_bmap(bm[i], p << cbits);
+				if (t && !inrun) { inrun = 1; run0 = p; }
+				else if (!t && inrun) {
+					printf("%s[%llu,%llu]", first ? "" : ",", run0 - s0, p - run0);
+					first = 0; inrun = 0;
 				}
+			}
+			if (inrun)
+				printf("%s[%llu,%llu]", first ? "" : ",", run0 - s0, e0 + 1 - run0);
 		}
 		printf("]");
 	}
@@ -100,11 +116,11 @@ static void print_state(void)
 
 static void rb_bits_nocursor(void)
 {
-	/* read the rb bitmap back with ffs/ffz only (neither touches a cursor) */
+	/* read the rb bitmap back with ffs/ffz only (neither touches a cursor); runs of ones as [first, length] */
 	unsigned long long s = ext2fs_get_generic_bmap_start(bm[1]), e = ext2fs_get_generic_bmap_end(bm[1]);
 	unsigned long long p = s, q, x, last = (e << cbits) | ((1ULL << cbits) - 1);
 	int first = 1;
-	printf(",\"rbff\":[");
+	printf(",\"rbrun\":[");
 	while (p <= e) {
 		__u64 out;
 		errcode_t r = ext2fs_find_first_set_generic_bmap(bm[1], p << cbits, last, &out);
@@ -113,14 +129,26 @@ static void rb_bits_nocursor(void)
 		q = out >> cbits;
 		r = ext2fs_find_first_zero_generic_bmap(bm[1], q << cbits, last, &out);
 		x = r ? e + 1 : (out >> cbits);
-		if (x <= q) { printf("%s-1", first ? "" : ","); break; }	/* no progress: report an impossible position */
-		for (; q < x; q++) {
-			printf("%s%llu", first ? "" : ",", q - s);
-			first = 0;
-		}
+		if (x <= q || q < p) { printf("%s[-1,1]", first ? "" : ","); break; }	/* no progress: report an impossible run */
+		printf("%s[%llu,%llu]", first ? "" : ",", q - s, x - q);
+		first = 0;
 		p = x;
 	}
 	printf("]");
+}
+
+/* runs of ones among the first n bits of buf, as [offset, length] */
+static void print_buf_runs(const unsigned char *buf, long long n)
+{
+	long long k, run0 = 0;
+	int inrun = 0, first = 1;
+	for (k = 0; k < n; k++) {
+		int t = (buf[k >> 3] >> (k & 7)) & 1;
+		if (t && !inrun) { inrun = 1; run0 = k; }
+		else if (!t && inrun) { printf("%s[%lld,%lld]", first ? "" : ",", run0, k - run0); first = 0; inrun = 0; }
+	}
+	if (inrun)
+		printf("%s[%lld,%lld]", first ? "" : ",", run0, n - run0);
 }
 
 static const char *ename(errcode_t r)
@@ -135,7 +163,9 @@ static const char *ename(errcode_t r)
 
 int main(void)
 {
-	char line[8192], op[64], bits[4096];
+	static char line[65536], bits[65536];
+	static unsigned char buf[BUFBYTES];
+	char op[64];
 	long long a, b;
 	int i, lineno = 0;
 
@@ -146,16 +176,44 @@ int main(void)
 		if (sscanf(line, "%63s", op) != 1)
 			continue;
 		if (!strcmp(op, "reset")) {
-			unsigned long long s, e, re; int cb;
-			sscanf(line, "%*s %llu %llu %llu %d", &s, &e, &re, &cb);
-			do_reset(s, e, re, cb);
-			printf("{\"e\":\"reset\",\"start\":%llu,\"rs_end\":%llu,\"rs_rend\":%llu,\"cb\":%d", s, e - s, re - s, cb);
+			static unsigned long long cuts[4096];
+			unsigned long long s, e, re, lo = 0, c; int cb, n = 0, k, nc = 0, j;
+			if (sscanf(line, "%*s %llu %llu %llu %d%n", &s, &e, &re, &cb, &n) < 4) { fprintf(stderr, "bad reset\n"); exit(3); }
+			k = n;
+			if (sscanf(line + k, "%llu%n", &lo, &n) == 1) k += n; else lo = 0;
+			while (nc < 4096 && sscanf(line + k, "%llu%n", &c, &n) == 1) { cuts[nc++] = c; k += n; }
+			logoff = lo;
+			if (lo > s) { fprintf(stderr, "logoff > start\n"); exit(3); }
+			/* the behaviour may resize up to the last cut point: the legacy back end takes part only if that fits */
+			do_reset(s, e, re, cb, nc ? s + cuts[nc - 1] - 1 : re);
+			printf("{\"e\":\"reset\",\"start\":%llu,\"rs_end\":%llu,\"rs_rend\":%llu,\"cb\":%d,\"cut\":[", s - lo, e - s, re - s, cb);
+			for (j = 0; j < nc; j++) printf("%s%llu", j ? "," : "", cuts[j]);
+			printf("]");
 			print_state();
 			printf("}\n");
 			continue;
 		}
-		sscanf(line, "%*s %lld %lld %4095s", &a, &b, bits);
-		printf("{\"e\":\"%s\",\"a\":%lld,\"b\":%lld", op, a, b);
+		{
+			/* positions may exceed 2^63 never, but may exceed 2^32: parse as unsigned, keep signed for "cmp -1" */
+			int n = 0;
+			sscanf(line, "%*s %lld %lld%n", &a, &b, &n);
+			if (!strcmp(op, "set_range"))
+				sscanf(line + n, "%65535s", bits);
+		}
+		/* logged arguments: absolute positions minus the log offset (lengths and "cmp -1/-2" are logged as they are) */
+		if (!strcmp(op, "mark") || !strcmp(op, "unmark") || !strcmp(op, "test") || !strcmp(op, "mark_range") ||
+		    !strcmp(op, "unmark_range") || !strcmp(op, "test_range"))		/* block number, length */
+			printf("{\"e\":\"%s\",\"a\":%lld,\"b\":%lld", op, a - (long long) (logoff << cbits), b);
+		else if (!strcmp(op, "ffz") || !strcmp(op, "ffs"))			/* two block numbers */
+			printf("{\"e\":\"%s\",\"a\":%lld,\"b\":%lld", op, a - (long long) (logoff << cbits), b - (long long) (logoff << cbits));
+		else if (!strcmp(op, "get_range") || !strcmp(op, "set_range") || !strcmp(op, "set_runs"))	/* bitmap unit, length */
+			printf("{\"e\":\"%s\",\"a\":%lld,\"b\":%lld", op[0] == 's' ? "set_range" : op, a - (long long) logoff, b);
+		else if (!strcmp(op, "resize"))						/* two bitmap units */
+			printf("{\"e\":\"%s\",\"a\":%lld,\"b\":%lld", op, a - (long long) logoff, b - (long long) logoff);
+		else if (!strcmp(op, "cmp"))
+			printf("{\"e\":\"%s\",\"a\":%lld,\"b\":%lld", op, a >= 0 ? a - (long long) logoff : a, b);
+		else
+			printf("{\"e\":\"%s\",\"a\":%lld,\"b\":%lld", op, a, b);
 		if (!strcmp(op, "mark") || !strcmp(op, "unmark") || !strcmp(op, "test")) {
 			printf(",\"ret\":[");
 			for (i = 0; i < NB; i++) {
@@ -190,35 +248,44 @@ int main(void)
 				r = (op[2] == 'z') ? ext2fs_find_first_zero_generic_bmap(bm[i], a, b, &out)
 						   : ext2fs_find_first_set_generic_bmap(bm[i], a, b, &out);
 				if (r) printf("%s%d", i ? "," : "", r == ENOENT ? -1 : -3);
-				else printf("%s%llu", i ? "," : "", (unsigned long long) out);
+				else if (out < (logoff << cbits)) printf("%s-4", i ? "," : "");
+				else printf("%s%llu", i ? "," : "", (unsigned long long) out - (logoff << cbits));
 			}
 			printf("]");
 		} else if (!strcmp(op, "get_range")) {
+			if (b < 1 || (b + 7) / 8 > BUFBYTES) { fprintf(stderr, "get_range: length out of driver range\n"); exit(3); }
 			printf(",\"ret\":[");
 			for (i = 0; i < NB; i++) {
-				unsigned char buf[1024];
-				long long k;
-				int first = 1;
 				errcode_t r;
 				printf("%s[", i ? "," : "");
 				if (bm[i]) {
-					memset(buf, 0xAA, sizeof(buf));	/* a stale buffer must not look like an answer */
+					memset(buf, 0xAA, (b + 7) / 8);	/* a stale buffer must not look like an answer */
 					r = ext2fs_get_generic_bmap_range(bm[i], a, b, buf);
-					if (r) printf("-1");
-					else for (k = 0; k < b; k++)
-						if ((buf[k >> 3] >> (k & 7)) & 1) { printf("%s%lld", first ? "" : ",", k); first = 0; }
+					if (r) printf("[-1,1]");
+					else print_buf_runs(buf, b);
 				}
 				printf("]");
 			}
 			printf("]");
-		} else if (!strcmp(op, "set_range")) {
-			unsigned char buf[1024];
+		} else if (!strcmp(op, "set_range") || !strcmp(op, "set_runs")) {
 			long long k;
-			int first = 1;
-			memset(buf, 0, sizeof(buf));
+			if (b < 1 || (b + 7) / 8 > BUFBYTES) { fprintf(stderr, "set_range: length out of driver range\n"); exit(3); }
+			memset(buf, 0, (b + 7) / 8);
+			if (!strcmp(op, "set_range")) {
+				for (k = 0; k < b && bits[k]; k++)
+					if (bits[k] == '1') buf[k >> 3] |= 1 << (k & 7);
+			} else {
+				int n = 0, pos = 0;
+				long long o, len;
+				sscanf(line, "%*s %*lld %*lld%n", &pos);
+				while (sscanf(line + pos, "%lld %lld%n", &o, &len, &n) == 2) {
+					if (o < 0 || len < 1 || o + len > b) { fprintf(stderr, "set_runs: run outside the range\n"); exit(3); }
+					for (k = o; k < o + len; k++) buf[k >> 3] |= 1 << (k & 7);
+					pos += n;
+				}
+			}
 			printf(",\"bitsin\":[");
-			for (k = 0; k < b && bits[k]; k++)
-				if (bits[k] == '1') { buf[k >> 3] |= 1 << (k & 7); printf("%s%lld", first ? "" : ",", k); first = 0; }
+			print_buf_runs(buf, b);
 			printf("]");
 			for (i = 0; i < NB; i++)
 				if (bm[i] && ext2fs_set_generic_bmap_range(bm[i], a, b, buf)) { fprintf(stderr, "set_range failed\n"); exit(3); }
@@ -227,6 +294,7 @@ int main(void)
 		} else if (!strcmp(op, "set_padding")) {
 			for (i = 0; i < NB; i++) if (bm[i]) ext2fs_set_generic_bmap_padding(bm[i]);
 		} else if (!strcmp(op, "resize")) {
+			if (bm[2] && (unsigned long long) b > 0xffffffffULL) { fprintf(stderr, "resize beyond 32 bits with a legacy bitmap\n"); exit(3); }
 			for (i = 0; i < NB; i++)
 				if (bm[i] && ext2fs_resize_generic_bmap(bm[i], a, b)) { fprintf(stderr, "resize failed\n"); exit(3); }
 			b_end = a; b_rend = b;
@@ -264,9 +332,7 @@ int main(void)
 		print_state();
 		rb_bits_nocursor();
 		/* full bit vectors of the bitarray and legacy back ends (test has no side effect there) */
-		{
-			print_bits();
-		}
+		print_bits();
 		printf("}\n");
 	}
 	free_all();
